@@ -596,6 +596,27 @@ for _text_limit in ("maxstring", "maxother"):
     "mutants/c07_decorator_re_max_4_blanks": [
         (REPR, '_DECORATOR_RE = re.compile(r"^\\s*@\\s*[a-zA-Z_(]")\n', '_DECORATOR_RE = re.compile(r"^\\s{0,12}@\\s*[a-zA-Z_(]")\n'),
     ],
+    "mutants/c20_fix_method_wrappers_left_out_reverted": [
+        (REPR, "        and not isinstance(value, _METHOD_WRAPPER_TYPE)\n", ""),
+    ],
+    "mutants/c07_fix_condition_without_name_reverted": [
+        (REPR, '    return getattr(a_function, "__name__", None) == "<lambda>"\n', '    return a_function.__name__ == "<lambda>"\n'),
+    ],
+    "mutants/c07_fix_common_prefix_of_private_names_reverted": [
+        (REPR, """        if common:
+            prefixes = prefixes & common
+""", ""),
+    ],
+    "mutants/c07_fix_private_name_by_name_reverted": [
+        # the private part of a mangled name is taken to start at the FIRST double underscore again (wrong for class names
+        # and private names which contain a double underscore themselves)
+        (REPR, """            if name.endswith(private)
+            and len(name) > len(private) + 1
+""", """            if name.endswith(private)
+            and name.find("__", 1) == len(name) - len(private)
+            and len(name) > len(private) + 1
+"""),
+    ],
     "mutants/c14_fix_unreadable_class_attribute_reverted": [
         (CHK, """        try:
             value = getattr(cls, name)
